@@ -45,6 +45,7 @@ pub struct ExecStats {
     pub option_contracts_checked: u64,
     pub option_strikes_with_3_or_more_decimals: u64,
     pub window_messages: u64,
+    pub twin_sets_mapped: u64,
 }
 
 pub struct ExecResult {
@@ -371,6 +372,48 @@ pub fn exec_case(case: &Case, env: &Env) -> ExecResult {
             probe: None,
         });
         return res;
+    }
+
+    // 2b. TWIN: the same venue market subscribed under a SECOND key (two desks tracking one instrument), somewhere
+    // before the end of the list. Whichever of the two keys that market is attributed to, every OTHER market
+    // must keep the key it is subscribed under - the mapper works on the whole list.
+    if case.instruments.len() >= 2 {
+        let j = (case.instruments[0].key as usize) % (case.instruments.len() - 1);
+        let mut twin_set = case.instruments.clone();
+        let mut twin = twin_set[j].clone();
+        twin.key = case.instruments.iter().map(|i| i.key).max().unwrap_or(0) + 1;
+        let twin_keys = [twin_set[j].key, twin.key];
+        twin_set.insert(j + 1, twin);
+        match plumb::map_pair(def.name, case.sub_type, &twin_set) {
+            Ok(m2) => {
+                res.stats.twin_sets_mapped += 1;
+                for (id, key) in mapped.map.0.iter() {
+                    let got = m2.map.0.get(id);
+                    let ok = if twin_keys.contains(key) { got.map(|k| twin_keys.contains(k)).unwrap_or(false) } else { got == Some(key) };
+                    if !ok {
+                        res.fired.push(Fired {
+                            signature: "market_subscribed_under_two_keys_changes_the_attribution_of_other_markets",
+                            detail: format!(
+                                "instrument #{j} of {} subscribed a second time under key {}: subscription id {id:?} now resolves to {got:?}, it is subscribed under key {key} (twin keys {twin_keys:?})",
+                                case.instruments.len(),
+                                twin_keys[1]
+                            ),
+                            probe: None,
+                        });
+                        return res;
+                    }
+                }
+                if m2.map.0.len() != mapped.map.0.len() {
+                    res.fired.push(Fired {
+                        signature: "market_subscribed_under_two_keys_changes_the_attribution_of_other_markets",
+                        detail: format!("with instrument #{j} subscribed twice the map holds {} subscription ids, {} without", m2.map.0.len(), mapped.map.0.len()),
+                        probe: None,
+                    });
+                    return res;
+                }
+            }
+            Err(e) => harness!(format!("twin set: {e}")),
+        }
     }
 
     // 3. Bitfinex: remap to channel ids through the real validator (loopback venue)
